@@ -246,6 +246,32 @@ def stepCore (e : Env) (line : String) : Env × String :=
     | ["pt.add", n, a, b] =>
       let ha ← lookup e a; let hb ← lookup e b
       let (h, e) ← runM e (ptAdd ha hb); pure (bind1 e n h, "ok")
+    -- augmented assignments (`x = a; x += b`): Python falls back to the binary operator, the result is a
+    -- new object and the aliased operand is untouched
+    | ["pt.iadd", n, a, b] =>
+      let ha ← lookup e a; let hb ← lookup e b
+      let (h, e) ← runM e (ptAdd ha hb); pure (bind1 e n h, "ok")
+    | ["pt.isub", n, a, b] =>
+      let ha ← lookup e a; let hb ← lookup e b
+      let (h, e) ← runM e (ptSub ha hb); pure (bind1 e n h, "ok")
+    | ["ex.iadd", n, a, b] =>
+      let ha ← lookup e a; let hb ← lookup e b
+      let (h, e) ← runM e (exAdd ha hb); pure (bind1 e n h, "ok")
+    | ["ex.isub", n, a, b] =>
+      let ha ← lookup e a; let hb ← lookup e b
+      let (h, e) ← runM e (exSub ha hb); pure (bind1 e n h, "ok")
+    | ["ex.iaddc", n, a, c1] =>
+      let some r1 := parseRat c1 | throw "bad rat"
+      let ha ← lookup e a
+      let (h, e) ← runM e (exAddConst ha r1); pure (bind1 e n h, "ok")
+    | ["ex.imul", n, a, c1] =>
+      let some r1 := parseRat c1 | throw "bad rat"
+      let ha ← lookup e a
+      let (h, e) ← runM e (exSmul r1 ha); pure (bind1 e n h, "ok")
+    | ["pt.imul", n, a, c1] =>
+      let some r1 := parseRat c1 | throw "bad rat"
+      let ha ← lookup e a
+      let (h, e) ← runM e (ptSmul r1 ha); pure (bind1 e n h, "ok")
     | ["pt.neg", n, a] =>
       let ha ← lookup e a
       let (h, e) ← runM e (ptNeg ha); pure (bind1 e n h, "ok")
@@ -408,6 +434,11 @@ def stepCore (e : Env) (line : String) : Env × String :=
       match calls with
       | .ok cs => pure (e, String.intercalate " " (cs.map showCall))
       | .error msg => pure (e, "MOSEK-ERROR " ++ msg)
+    | ["dump.heur", ws] =>
+      let parseRow (r : String) : Option (List Rat) := if r.isEmpty then some [] else (r.splitOn ",").mapM parseRat
+      let some W := ((ws.drop 2).toString.splitOn ";").mapM parseRow | throw "bad W"
+      let trips := mosekHeuristic W
+      pure (e, "heur " ++ canon (trips.map fun t => (pad t.i ++ "_" ++ pad t.j, showRat t.val)))
     | ["dump.dense"] =>
       -- dense data of every scalar constraint sent (entries listed sparsely, symmetrised)
       let (s, _) ← runM e (do
